@@ -90,21 +90,33 @@ def setup(rec, tier):
     contracts.hook(cs.ConvexSpheropolygon, "perimeter", post=sp_per)
 
     # --- spheropolyhedron --------------------------------------------------
+    def dM(s, C):
+        """Allowance for faces that are planar only up to the rounding of their coordinates and come in exact pieces (see
+        geom.split_hull): across such a piece boundary the exterior angle is 0 up to rounding, and an angle taken as
+        arccos(n1.n2) is sqrt(2 eps) ~ 2e-8 there - a contribution of up to 1e-9 of the solid's size per extra face, which is
+        the method's conditioning at a flat edge and not a different shape."""
+        with contracts.quiet():
+            core = s.polyhedron if hasattr(s, "polyhedron") else s
+            extra = max(0, len(core.faces) - len(C["h"].facets))
+        if extra:
+            rec.cls("face-planar-only-up-to-rounding:reported-in-exact-pieces")
+        return extra * 2e-9 * C["d"]
+
     def sh_vol(s, a, k, res, tok):
         C, r = core3(s.vertices), float(s.radius)
         want = C["V"] + C["S"] * r + 4 * math.pi * C["M"] * r * r + 4 / 3 * math.pi * r ** 3
-        rec.close("ConvexSpheropolyhedron.volume", float(res), want, REL * want, "ConvexSpheropolyhedron.volume/steiner", lambda: w3(s))
+        rec.close("ConvexSpheropolyhedron.volume", float(res), want, REL * want + 4 * math.pi * r * r * dM(s, C), "ConvexSpheropolyhedron.volume/steiner", lambda: w3(s))
 
     def sh_area(s, a, k, res, tok):
         C, r = core3(s.vertices), float(s.radius)
         want = C["S"] + 8 * math.pi * C["M"] * r + 4 * math.pi * r * r
-        rec.close("ConvexSpheropolyhedron.surface_area", float(res), want, REL * want, "ConvexSpheropolyhedron.surface_area/steiner",
+        rec.close("ConvexSpheropolyhedron.surface_area", float(res), want, REL * want + 8 * math.pi * r * dM(s, C), "ConvexSpheropolyhedron.surface_area/steiner",
                   lambda: w3(s))
 
     def sh_mc(s, a, k, res, tok):
         C, r = core3(s.vertices), float(s.radius)
         want = C["M"] + r
-        rec.close("ConvexSpheropolyhedron.mean_curvature", float(res), want, REL * want, "ConvexSpheropolyhedron.mean_curvature/steiner",
+        rec.close("ConvexSpheropolyhedron.mean_curvature", float(res), want, REL * want + dM(s, C), "ConvexSpheropolyhedron.mean_curvature/steiner",
                   lambda: w3(s))
 
     contracts.hook(cs.ConvexSpheropolyhedron, "volume", post=sh_vol)
@@ -116,7 +128,7 @@ def setup(rec, tier):
         def post(s, a, k, res, tok):
             C = core3(s.vertices)
             want = fn(C)
-            rec.close("ConvexPolyhedron." + member, float(res), want, REL * abs(want) * 10, f"ConvexPolyhedron.{member}/definition", lambda: w3(s))
+            rec.close("ConvexPolyhedron." + member, float(res), want, REL * abs(want) * 10 * (1 + 100 * (dM(s, C) > 0)), f"ConvexPolyhedron.{member}/definition", lambda: w3(s))
         return post
 
     contracts.hook(cs.ConvexPolyhedron, "mean_curvature", post=scal("mean_curvature", lambda C: C["M"]))
@@ -318,7 +330,7 @@ def run_case(i, rng, rec, tier, state):
                 rec.violation("ConvexSpheropolyhedron." + m, f"ConvexSpheropolyhedron.{m}/raises-{type(e).__name__}", {"V": P, "r": r, "exc": repr(e)})
         if r == 0 and len(vals) == 3:
             ok = (abs(vals["volume"] - C["V"]) <= 1e-9 * C["d"] ** 3 and abs(vals["surface_area"] - C["S"]) <= 1e-9 * C["d"] ** 2
-                  and abs(vals["mean_curvature"] - C["M"]) <= 1e-9 * C["d"])
+                  and abs(vals["mean_curvature"] - C["M"]) <= 1e-9 * C["d"] * (1 + 2 * max(0, len(s.polyhedron.faces) - len(C["h"].facets))))
             rec.check("r=0:core", ok, "ConvexSpheropolyhedron/r=0-differs-from-core", {"V": P, "vals": vals})
         if r > 0:
             rec.nontriv(P[np.lexsort(P.T)], r)
